@@ -26,6 +26,7 @@ def strategy(tier, unit):
 def check(case, ctx):
     M = SF.build(case)
     g = M.g
+    SF.classify(case, M, ctx)
     if GR.touch_sibling(g.no, g.choice):      # both settings of an R group used in one process
         ctx.event("sibling-setting-used-first")
     tag = "%s" % g.crystal_system
